@@ -61,6 +61,7 @@ type caseIn struct {
 	IntervalMs int    `json:"interval_ms"`   // ack flush interval
 	NSrc       int    `json:"nsrc"`          // source nodes subscribed (filters 0..nsrc-1) when Filters is empty
 	Filters    []int  `json:"filters,omitempty"` // source node of every filter, in order (the same node may be named twice)
+	Datagram   bool   `json:"datagram,omitempty"` // the transport has an unreliable channel (AsUnreliable ok): chunks of an unreliable-QoS stream travel on it
 	Outage     bool   `json:"outage,omitempty"` // short keepalive: "cut" ops sever the link, the stream resumes
 	Ops        []opIn `json:"ops"`
 }
@@ -219,6 +220,7 @@ func runCase(c *caseIn, r *rng.R) (res result) {
 		}
 	})
 	defer b.Release()
+	b.Unreliable.Store(c.Datagram)
 
 	bad := func(msg string) result {
 		res.direct = msg
@@ -437,6 +439,11 @@ func runCase(c *caseIn, r *rng.R) (res result) {
 		}
 		ptr++
 		term := fmt.Sprintf("Arrive (mkChunk %d %s %d %s)", ptr, upT, op.Seq, coqfmt.List(gsT))
+		if c.Datagram && qos == message.QoSUnreliable {
+			// the client listens for an unreliable-QoS stream on the unreliable channel only; reliable
+			// and partial streams are carried on the reliable channel
+			return term, sess.SendUnreliable(ck)
+		}
 		return term, sess.Send(ck)
 	}
 	sendMeta := func(op *opIn) (string, error) {
@@ -918,7 +925,7 @@ func runCase(c *caseIn, r *rng.R) (res result) {
 // the generator follows the alias numbers the client will issue (upstream: one per full-form
 // occurrence, as the code does today; data ids: one per id) so that most alias uses are valid
 func genCase(r *rng.R) *caseIn {
-	c := &caseIn{QoS: r.Intn(3), NSrc: 1 + r.Intn(3)}
+	c := &caseIn{QoS: r.Intn(3), NSrc: 1 + r.Intn(3), Datagram: r.Chance(1, 3)}
 	c.IntervalMs = []int{1, 1, 5, 20, 10000}[r.Intn(5)]
 	// one filter per source node, sometimes a second (or third) filter naming a node again
 	for n := 0; n < c.NSrc; n++ {
@@ -1141,7 +1148,7 @@ func genStuck(r *rng.R) *caseIn {
 // thousands of chunks returned between two ack flushes (long flush interval), then Close: every one
 // of them must be acknowledged before the close request, however many acks that takes
 func genBigBurst(r *rng.R, total, intervalMs int, midTick bool) *caseIn {
-	c := &caseIn{QoS: r.Intn(3), NSrc: 1, IntervalMs: intervalMs}
+	c := &caseIn{QoS: r.Intn(3), NSrc: 1, IntervalMs: intervalMs, Datagram: r.Chance(1, 3)}
 	seq, left, first := 1, total, true
 	for left > 0 {
 		n := 700 + r.Intn(300)
@@ -1272,6 +1279,22 @@ func main() {
 			{Op: "arrive", UpFull: true, Up: 1, Seq: 1, Groups: []grpIn{g(false, 3), g(true, 5), g(false, 2), g(false, 1)}}, {Op: "read"},
 			{Op: "arrive", Up: 1, Seq: 2, Groups: []grpIn{g(true, 6), g(false, 3), g(false, 4), g(false, 5)}}, {Op: "read"},
 			{Op: "arrive", Up: 1, Seq: 3, Groups: []grpIn{g(false, 3), g(true, 2)}}, {Op: "read"}, {Op: "close"}}}, "scripted")
+		// a transport with an unreliable channel, each QoS: reliable and partial streams on the reliable
+		// channel, unreliable streams on the unreliable one; also across a link failure and resume
+		for qi := 0; qi < 3; qi++ {
+			add(&caseIn{QoS: qi, NSrc: 1, IntervalMs: 1, Datagram: true, Outage: true, Ops: []opIn{
+				{Op: "arrive", UpFull: true, Up: 1, Seq: 1, Groups: []grpIn{g(true, 1)}}, {Op: "read"},
+				{Op: "arrive", Up: 1, Seq: 2, Groups: []grpIn{g(false, 1)}}, {Op: "meta", Body: 1}, {Op: "read"}, {Op: "readmeta"},
+				{Op: "cut"}, {Op: "arrive", Up: 1, Seq: 3, Groups: []grpIn{g(false, 1)}}, {Op: "read"}, {Op: "await"}, {Op: "close"}}}, "scripted")
+		}
+		// alias of A, full form of another upstream B, alias of A again (and once more), then the same with
+		// B's full form repeated after B has an alias
+		add(&caseIn{QoS: 1, NSrc: 1, IntervalMs: 5, Ops: []opIn{
+			{Op: "arrive", UpFull: true, Up: 1, Seq: 1, Groups: []grpIn{g(true, 1)}}, {Op: "read"},
+			{Op: "arrive", Up: 1, Seq: 2}, {Op: "arrive", UpFull: true, Up: 2, Seq: 1}, {Op: "arrive", Up: 1, Seq: 3}, {Op: "arrive", Up: 1, Seq: 4},
+			{Op: "read"}, {Op: "read"}, {Op: "read"}, {Op: "read"},
+			{Op: "arrive", Up: 2, Seq: 2}, {Op: "arrive", UpFull: true, Up: 1, Seq: 5}, {Op: "arrive", Up: 2, Seq: 3}, {Op: "arrive", UpFull: true, Up: 2, Seq: 4}, {Op: "arrive", Up: 1, Seq: 6},
+			{Op: "read"}, {Op: "read"}, {Op: "read"}, {Op: "read"}, {Op: "read"}, {Op: "close"}}}, "scripted")
 		// ack flush stuck in the write while the next chunk is read, then the link dies
 		add(&caseIn{QoS: 1, NSrc: 1, IntervalMs: 1, Outage: true, Ops: []opIn{
 			{Op: "arrive", UpFull: true, Up: 1, Seq: 1, Groups: []grpIn{g(true, 1)}},
@@ -1340,7 +1363,7 @@ func main() {
 			}
 		}
 	}
-	rule := "scripted switch-over histories; overflow histories (more than 1024 chunks / metadata items queued before any read); random: 4-31 ops over 1-5 upstreams x 1-6 data ids mixing full and alias forms (full form again after the alias exists, alias used in the chunk that introduces the id, unknown aliases, pre-registered ids), 0-4 groups of 0-3 points, metadata from 1-3 source nodes, reads lagging arbitrarily, reads on an empty queue, awaits of the timer-driven ack flush (interval 1/5/20 ms) or a 10 s interval with everything pending at Close, reads and a second Close after Close, QoS x3; outage: the same with 1-2 loud link failures in the middle (keepalive 10/40 ms, the broker accepts the redial and the resume request), half of them with a 10 s flush interval so that every result read before the failure is still pending when the link dies; the failed flushes are recovered from the gap in the ack ids; stuck: the peer stops reading so that an ack flush blocks in the transport write, the next chunk is read meanwhile, then the link is cut (the write fails) and the stream resumes; metaburst: 3-5 rounds of 300-500 metadata of a node named by two or three filters, sent back to back with a concurrent reader; filters may name a node twice, metadata of nodes without filter are sent too; pre-registered id lists may repeat an id; bigburst: 1500 / 2300 (with an awaited flush after the first part) / 2500 / 3100 chunks returned by ReadDataPoints with a 20 ms / 10 s / 1 h ack flush interval, then Close. non-trivial = >=2 upstreams returned, >=1 returned chunk whose upstream came in alias form, >=1 returned group in alias form, >=2 acks; distinct = distinct Coq case terms"
+	rule := "scripted switch-over histories; overflow histories (more than 1024 chunks / metadata items queued before any read); random: 4-31 ops over 1-5 upstreams x 1-6 data ids mixing full and alias forms (full form again after the alias exists, alias used in the chunk that introduces the id, unknown aliases, pre-registered ids), 0-4 groups of 0-3 points, metadata from 1-3 source nodes, reads lagging arbitrarily, reads on an empty queue, awaits of the timer-driven ack flush (interval 1/5/20 ms) or a 10 s interval with everything pending at Close, reads and a second Close after Close, QoS x3; outage: the same with 1-2 loud link failures in the middle (keepalive 10/40 ms, the broker accepts the redial and the resume request), half of them with a 10 s flush interval so that every result read before the failure is still pending when the link dies; the failed flushes are recovered from the gap in the ack ids; stuck: the peer stops reading so that an ack flush blocks in the transport write, the next chunk is read meanwhile, then the link is cut (the write fails) and the stream resumes; metaburst: 3-5 rounds of 300-500 metadata of a node named by two or three filters, sent back to back with a concurrent reader; filters may name a node twice, metadata of nodes without filter are sent too; pre-registered id lists may repeat an id; a third of all cases (every QoS) run over a transport with an unreliable channel (AsUnreliable ok): chunks of unreliable-QoS streams are sent on it, reliable and partial ones on the reliable channel; bigburst: 1500 / 2300 (with an awaited flush after the first part) / 2500 / 3100 chunks returned by ReadDataPoints with a 20 ms / 10 s / 1 h ack flush interval, then Close. non-trivial = >=2 upstreams returned, >=1 returned chunk whose upstream came in alias form, >=1 returned group in alias form, >=2 acks; distinct = distinct Coq case terms"
 	if err := w.Flush(*seed, *tier, rule, false, nil); err != nil {
 		fmt.Fprintln(os.Stderr, err)
 		os.Exit(2)
